@@ -732,11 +732,12 @@ Proof.
 Qed.
 
 (* Wordlist(dict) establishes the invariant *)
-Theorem build_wf t K hdr d w : NoDup (map fst d) -> build t K hdr d = Some w -> wf K w.
+Theorem build_gen_wf t K hdr d row col meta w :
+  NoDup (map fst d) -> build_gen t K hdr d row col meta = Some w -> wf K w.
 Proof.
-  intros ND. unfold build. destruct (init_names t hdr) as [n|]; [|discriminate].
-  destruct (resolve_item n "concept") as [ri|]; [|discriminate].
-  destruct (resolve_item n "doculect") as [ci|]; [|discriminate].
+  intros ND. unfold build_gen. destruct (init_names t hdr) as [n|]; [|discriminate].
+  destruct (resolve_item n row) as [ri|]; [|discriminate].
+  destruct (resolve_item n col) as [ci|]; [|discriminate].
   destruct (keep_rows d) as [|r0 rest] eqn:Ek; [discriminate|]. rewrite <- Ek.
   destruct (to_prows (List.length (n_header n)) ri ci (keep_rows d)) as [P|] eqn:Ep; [|discriminate].
   intros H. inversion H. subst w. clear H.
@@ -747,6 +748,20 @@ Proof.
   - intros r Hr. apply keep_rows_spec in Hr. apply Hr.
   - exact (to_prows_len _ _ _ _ _ Ep).
   - rewrite Ek. discriminate.
+Qed.
+
+Theorem build_wf t K hdr d w : NoDup (map fst d) -> build t K hdr d = Some w -> wf K w.
+Proof. intros ND H. exact (build_gen_wf t K hdr d _ _ _ w ND H). Qed.
+
+(* wl.<s> for the spellings of the two dimensions: rows and cols, whatever the metadata holds *)
+Lemma get_attr_dims w s n : sget (n_alias (w_names w)) s = Some n ->
+  (n = d_rown (w_dims w) -> get_attr w s = AList (x_rows (w_index w))) /\
+  (n <> d_rown (w_dims w) -> n = d_coln (w_dims w) -> get_attr w s = AList (x_cols (w_index w))).
+Proof.
+  intros H. unfold get_attr. rewrite H. split.
+  - intros ->. rewrite String.eqb_refl. reflexivity.
+  - intros N ->. destruct (String.eqb (d_coln (w_dims w)) (d_rown (w_dims w))) eqn:E;
+      [apply String.eqb_eq in E; contradiction|]. rewrite String.eqb_refl. reflexivity.
 Qed.
 
 (* the indexes depend on id, concept and language of the rows only *)
